@@ -263,15 +263,20 @@ def strat_load(draw, tier):
     seed = draw(st.integers(0, 10 ** 6))
     few = draw(st.lists(entry_strategy(), min_size=1, max_size=12))
     # pre-existing allocations of other applications (fragmentation)
+    app_id = draw(st.integers(1, 255))
+    # (some of them belong to the application that is being loaded: its
+    # tables arrive in several batches)
     others = draw(st.lists(st.tuples(st.integers(1, 400),
-                                     st.integers(1, 254)), max_size=5))
+                                     st.one_of(st.integers(1, 254),
+                                               st.just(app_id))),
+                           max_size=5))
     freed = draw(st.lists(st.booleans(), min_size=len(others),
                           max_size=len(others)))
     return {"n": n, "seed": seed, "few": [[sorted(r), k, m]
                                           for r, k, m in few],
             "others": [list(o) for o in others], "freed": freed,
             "chip": draw(st.sampled_from([[0, 0], [1, 0], [1, 1]])),
-            "app_id": draw(st.integers(1, 255)),
+            "app_id": app_id,
             "via": draw(st.sampled_from(["entries", "tables", "context"])),
             "buffer": draw(st.sampled_from([64, 256, 256, 100]))}
 
@@ -302,7 +307,8 @@ def check_load(case):
             if l >= count:
                 base = s
                 chip.rtr_free[i] = (s + count, l - count)
-                chip.rtr_blocks[s] = (count, 0x100 + app)
+                chip.rtr_blocks[s] = (count, app if app == case["app_id"]
+                                      else 0x100 + app)
                 for j in range(s, s + count):
                     chip.router[j] = (1 << (j % 24), j, 0xffffffff,
                                       app, 0)
@@ -377,7 +383,15 @@ def check_load(case):
             if not base <= j < base + len(spec):
                 require(chip.router[j] == before[j], "a router entry outside "
                         "the allocated block changed", {"index": j})
-        # read back
+        # read back (another chip's router first, with the same controller)
+        ox, oy = (0, 1) if (x, y) != (0, 1) else (0, 0)
+        with sut("get_routing_table_entries"):
+            other = mc.get_routing_table_entries(ox, oy)
+        orouter = m.chips[(ox, oy)].router
+        require(len(other) == 1024 and all(
+            (o is None) == (e is None) for o, e in zip(other, orouter)),
+            "the read-back of another chip's router does not show its "
+            "entries", {"chip": [ox, oy]})
         with sut("get_routing_table_entries"):
             back = mc.get_routing_table_entries(x, y)
         require(len(back) == 1024, "read-back is not a 1024-entry list",
